@@ -522,8 +522,9 @@ def add_subclass(r, m, insts):
         return
     refs = [f["type"][1] for c in m["classes"] for f in c["fields"]
             if f["kind"] == "Element" and f.get("type") and f["type"][0] == "class"]
+    # (a wildcard of the base class would compete with the subclass's own element: an ambiguous model, not a defect)
     refs = [n for n in refs if not G.find_class(m, n).get("twin")
-            and not any(f["kind"] == "Text" for f in G.all_fields(m, G.find_class(m, n)))]
+            and not any(f["kind"] in ("Text", "Wildcard", "Elements") for f in G.all_fields(m, G.find_class(m, n)))]
     if not refs:
         return
     base = r.choice(refs)
